@@ -433,6 +433,10 @@ func (x *FnCtx) assumeTypeV(st *State, v Value, t types.Type) {
 		}
 		if isRefLike(t) && vv.Sort == IntSort && !isString(t) {
 			st.pc = x.tb.And(st.pc, x.tb.Lt(vv, st.heap.A))
+			if ext := pointeeExtent(t); ext > 1 {
+				// the whole pointee object lies below the allocation frontier
+				st.pc = x.tb.And(st.pc, x.tb.Implies(x.tb.Ne(vv, x.tb.IntC(0)), x.tb.Le(x.tb.Add(vv, x.tb.IntC(ext)), st.heap.A)))
+			}
 		}
 	case SliceV:
 		x.axiom(x.typeInv(vv, t, nil))
